@@ -46,17 +46,24 @@ class Schema:
     BASE_FIELDS = ['status', 'result', 'start_clock', 'end_clock']
     CLOCK_FIELDS = ('start_clock', 'end_clock')
 
-    def __init__(self, task_names, n_threads, extra_fields=()):
+    def __init__(self, task_names, n_threads, extra_fields=(), shared_entry=None):
+        """shared_entry: name of an extra environment key (not a task) whose fields are the task names"""
         self.tasks = list(task_names)
+        self.n_real = len(self.tasks)
         self.fields = list(self.BASE_FIELDS) + list(extra_fields)
+        self.entry_fields = {}
+        if shared_entry is not None:
+            self.entry_fields[len(self.tasks)] = list(task_names)
+            self.tasks.append(shared_entry)
         self.n_threads = n_threads
         self.vars = {}          # name -> 'int' | 'bool' | 'arr'
         for i in range(len(self.tasks)):
             self.vars[f'p{i}'] = 'bool'
-            for f in self.fields:
+            for f in self.fields_of(i):
                 self.vars[f'h{i}_{f}'] = 'bool'
                 self.vars[f'v{i}_{f}'] = 'int'
-            self.vars[f'x{i}'] = 'int'                 # monitor: number of do() entries
+            if i < self.n_real:
+                self.vars[f'x{i}'] = 'int'                 # monitor: number of do() entries
         self.vars['q'] = 'arr'
         self.vars['qh'] = 'int'
         self.vars['qt'] = 'int'
@@ -68,6 +75,9 @@ class Schema:
             self.vars[f'cvw{t}'] = 'bool'               # thread t waits on the condition variable
             self.vars[f'st{t}'] = 'bool'                # thread t has been started
             self.vars[f'fin{t}'] = 'bool'               # thread t has terminated (END or DEAD/EXC)
+
+    def fields_of(self, i):
+        return self.entry_fields.get(i, self.fields)
 
     def mk(self, name, suffix):
         s = self.vars[name]
@@ -173,8 +183,9 @@ class Ctx:
             # domains of the havocked state (superset of what real runs can reach; checked by the BMC)
             dom = []
             for i in range(len(self.schema.tasks)):
-                dom.append(cur[f'x{i}'] >= 0)
-                for f in self.schema.fields:
+                if i < self.schema.n_real:
+                    dom.append(cur[f'x{i}'] >= 0)
+                for f in self.schema.fields_of(i):
                     if f not in Schema.CLOCK_FIELDS:
                         v = cur[f'v{i}_{f}']
                         dom += [v >= 0, v < Intern.MAX]
@@ -214,14 +225,14 @@ class Ctx:
     def flush_live(self):
         for i, d in self.live.items():
             self.write(f'p{i}', True)
-            for f in self.schema.fields:
+            for f in self.schema.fields_of(i):
                 if f in d:
                     self.write(f'h{i}_{f}', True)
                     self.write(f'v{i}_{f}', self.encode(d[f], f))
                 else:
                     self.write(f'h{i}_{f}', False)
             for k in d:
-                if k not in self.schema.fields:
+                if k not in self.schema.fields_of(i):
                     raise NewField(k)
             self.flushed.append([i, d, dict(d)])
         self.live = {}
@@ -321,9 +332,9 @@ class Ctx:
                 if i in self.live:
                     raise ModelError('environment entry replaced while an older alias is still written')
                 for k in d:
-                    if k not in self.schema.fields:
+                    if k not in self.schema.fields_of(i):
                         raise NewField(k)
-                for f in self.schema.fields:
+                for f in self.schema.fields_of(i):
                     if f in d and (f not in snap or d[f] is not snap[f]):
                         self.write(f'h{i}_{f}', True)
                         self.write(f'v{i}_{f}', self.encode(d[f], f))
@@ -428,7 +439,7 @@ class SymEntry(MutableMapping):
         self.i = i
 
     def _has(self, f):
-        if f not in self.ctx.schema.fields:
+        if f not in self.ctx.schema.fields_of(self.i):
             return False
         return bool(SBool(self.ctx.read(f'h{self.i}_{f}')))
 
@@ -447,7 +458,7 @@ class SymEntry(MutableMapping):
         return self.ctx.intern.obj(code)
 
     def __setitem__(self, f, v):
-        if f not in self.ctx.schema.fields:
+        if f not in self.ctx.schema.fields_of(self.i):
             raise NewField(f)
         self.ctx.write(f'h{self.i}_{f}', True)
         self.ctx.write(f'v{self.i}_{f}', self.ctx.encode(v, f))
@@ -458,7 +469,7 @@ class SymEntry(MutableMapping):
         self.ctx.write(f'h{self.i}_{f}', False)
 
     def __iter__(self):
-        for f in self.ctx.schema.fields:
+        for f in self.ctx.schema.fields_of(self.i):
             if self._has(f):
                 yield f
 
